@@ -76,6 +76,21 @@ fn haff(p: &Point) -> String {
         format!("{},{}", h(&vh::fp_from_mont(&a.x)), h(&vh::fp_from_mont(&a.y)))
     }
 }
+
+/// the same point in the Jacobian representation with Z = z (canonical field value, hex): (x z^2, y z^3, z) in Montgomery limbs.
+/// Used by the `_j` ops: every protocol function must be independent of the representation of the points it is given.
+fn rescale(p: &Point, zhex: &str) -> Point {
+    if p.is_zero() { return *p; }
+    let a = p.to_affine_point();
+    let z = vh::fp_to_mont(&u(zhex));
+    let z2 = z.fp_sqr();
+    let z3 = z2.fp_mul(&z);
+    Point { x: a.x.fp_mul(&z2), y: a.y.fp_mul(&z3), z }
+}
+fn pkj(zhex: &str, pkhex: &str) -> Result<Sm2PublicKey, Sm2Error> {
+    let pk = Sm2PublicKey::new(&unhex(pkhex))?;
+    Ok(Sm2PublicKey { point: rescale(&pk.point, zhex) })
+}
 fn model(s: &str) -> Sm2Model {
     if s == "c1c2c3" {
         Sm2Model::C1C2C3
@@ -248,6 +263,29 @@ pub fn dispatch(t: &[&str]) -> Option<Out> {
         }
         // sm2_kex <dA> <dB> <idA> <idB> <klen> <rA> <rB> <tamper>
         //   tamper: comma list of ra|rb|sb|sa (flip one bit of that message in transit) or "-"
+        // representation-independence variants: the public key is handed over as (x z^2, y z^3, z)
+        "sm2_za_j" => {
+            let pk = match pkj(t[1], t[3]) { Ok(p) => p, Err(e) => return Some(Out::Err(errname(e))) };
+            let id = leak(t[2]).unwrap_or("1234567812345678");
+            res(gm_sm2::util::compute_za(id, &pk.point), |z| hx(&z))
+        }
+        "sm2_verify_j" => {
+            let pk = match pkj(t[1], t[2]) { Ok(p) => p, Err(e) => return Some(Out::Err(errname(e))) };
+            res(pk.verify(leak(t[3]), &unhex(t[4]), &unhex(t[5])), |_| String::new())
+        }
+        "sm2_verify_raw_j" => {
+            let pk = match pkj(t[1], t[2]) { Ok(p) => p, Err(e) => return Some(Out::Err(errname(e))) };
+            res(pk.verif_verify_raw(&unhex(t[3]), &unhex(t[4])), |_| String::new())
+        }
+        "sm2_enc_j" => {
+            let pk = match pkj(t[1], t[2]) { Ok(p) => p, Err(e) => return Some(Out::Err(errname(e))) };
+            push_cands(t[6]);
+            let r = pk.encrypt(&unhex(t[3]), t[4] == "1", model(t[5]));
+            let l = log_str();
+            res(r, |c| format!("{} {}", hx(&c), l))
+        }
+        // sm2_kex_j <zPA,zPB,zRA,zRB> <dA> <dB> <idA> <idB> <klen> <rA> <rB> <tamper>
+        "sm2_kex_j" => return Some(kex_z(&t[1..], Some(t[1]))),
         "sm2_kex" => return Some(kex(t)),
         // sm2_kexforge <dA> <dB> <idA> <idB> <klen> <rA> <rB> <sb|sa> <32-byte value>: an honest run in which the confirmation
         // value S_B (resp. S_A) is REPLACED in transit by the given value
@@ -482,23 +520,26 @@ fn kexseq(t: &[&str]) -> Out {
     Out::Ok(outs.join(" | "))
 }
 
-fn kex(t: &[&str]) -> Out {
+fn kex(t: &[&str]) -> Out { kex_z(t, None) }
+fn kex_z(t: &[&str], zs: Option<&str>) -> Out {
+    let z: Vec<&str> = zs.map(|s| s.split(',').collect()).unwrap_or_default();
+    let rs = |p: &Point, i: usize| -> Point { if z.len() == 4 { rescale(p, z[i]) } else { *p } };
     let ska = match Sm2PrivateKey::new(&unhex(t[1])) { Ok(k) => k, Err(e) => return Out::Err(errname(e)) };
     let skb = match Sm2PrivateKey::new(&unhex(t[2])) { Ok(k) => k, Err(e) => return Out::Err(errname(e)) };
     let ida = leak(t[3]);
     let idb = leak(t[4]);
     let klen: usize = t[5].parse().unwrap();
     let tam: Vec<&str> = t[8].split(',').collect();
-    let pka = ska.to_public_key();
-    let pkb = skb.to_public_key();
+    let pka = Sm2PublicKey { point: rs(&ska.to_public_key().point, 0) };
+    let pkb = Sm2PublicKey { point: rs(&skb.to_public_key().point, 1) };
     let mut a = match Exchange::new(klen, ida, &pka, &ska, idb, &pkb) { Ok(x) => x, Err(e) => return Out::Err(errname(e)) };
     let mut b = match Exchange::new(klen, idb, &pkb, &skb, ida, &pka) { Ok(x) => x, Err(e) => return Out::Err(errname(e)) };
     push_cands(&format!("{},{}", t[6], t[7]));
     let ra = match a.exchange_1() { Ok(p) => p, Err(e) => return Out::Err(format!("step1:{}", errname(e))) };
-    let ra_b = if tam.contains(&"ra") { flip(&ra) } else { ra };
+    let ra_b = if tam.contains(&"ra") { flip(&ra) } else { rs(&ra, 2) };
     let (rb, sb) = match b.exchange_2(&ra_b) { Ok(x) => x, Err(e) => { vh::clear(); return Out::Err(format!("step2:{}", errname(e))) } };
     vh::clear();
-    let rb_a = if tam.contains(&"rb") { flip(&rb) } else { rb };
+    let rb_a = if tam.contains(&"rb") { flip(&rb) } else { rs(&rb, 3) };
     let mut sb_a = sb;
     if tam.contains(&"sb") { sb_a[0] ^= 1; }
     let sa = match a.exchange_3(&rb_a, sb_a) { Ok(x) => x, Err(e) => return Out::Err(format!("step3:{}", errname(e))) };
